@@ -16,12 +16,39 @@ CLAIMED = {
                     "dominated by a recorded alt on all paths (PFAIL)",
             "design_ref": "§4.1, §5 C20", "note": NOTE,
             "technique": "static must-analysis (definite-Some) over MIR paths"},
+
+    "C04": {"text": "check()/parse() equivalence by parametricity: go<M: Mode> can observe the mode only through Mode's methods, so "
+                    "it suffices that the Emit and Check impls of every Mode method and all go_emit/go_check/*_cfg/do_parse_* forwarders "
+                    "are erasures of one another (MODE-PAIR), and that every closure handed to a Mode value method (run in Emit only) is "
+                    "free of parse-state effects (MODE-PURE); decided for every body of the crate",
+            "design_ref": "§4.1 MODE-PAIR/MODE-PURE, §5 C04", "note": NOTE,
+            "technique": "static effect analysis + sibling (Emit vs Check) agreement over MIR"},
+    "C12": {"text": "every recursion edge (Recursive<Indirect|Direct>::go dispatch, Pratt::pratt_go self-calls) lies inside a closure "
+                    "whose only sink is recursive::recurse, which reaches stacker::maybe_grow(red_zone < stack_size) (RECURSE); "
+                    "define-once discipline of the declare/define cell (ONCE)",
+            "design_ref": "§4.1 RECURSE, §5 C12", "note": NOTE,
+            "technique": "static call-graph / closure-sink (must-pass-through) analysis over MIR"},
+    "C13": {"text": "type-level: all parser/strategy/operator ADTs are free of interior mutability modulo their parameters (FREEZE), the "
+                    "crate has no global/thread-local/atomic state (STATICS), and all per-parse state is owned by an InputOwn built "
+                    "afresh in each parse/check entry point and consumed before it returns (OWN-STATE)",
+            "design_ref": "§4.4 FREEZE, §5 C13", "note": NOTE,
+            "technique": "static type-level analysis (deep field/generic-argument scan) + who-may-construct rule"},
+    "C18": {"text": "the cursor can be moved only by a reviewed set of InputRef primitives (HOOKS-WRITERS), each of which calls the "
+                    "matching Inspector hook on exactly the paths that move it (HOOKS-TOKEN, HOOKS-SAVE-REWIND), child inputs are "
+                    "built from the specified pieces and with_state gets a fresh clone (SUB-INPUT); combinators abandon input only "
+                    "through rewind (POISON/KEEP)",
+            "design_ref": "§4.1 HOOKS, §5 C18", "note": NOTE,
+            "technique": "static who-may-write + path pairing (hook on every advancing path) analysis over MIR"},
+    "C19": {"text": "outside a reviewed inventory of functions using leak/duplication-capable operations (UNSAFE-INV) rustc's drop "
+                    "elaboration guarantees exactly-once drops; for each holder of a partially initialised container every path after "
+                    "a write passes a prefix drop or the final take, never both, with the drop count = write index (MAYBEUNINIT)",
+            "design_ref": "§4.1 UNSAFE-INV/MAYBEUNINIT, §5 C19", "note": NOTE,
+            "technique": "static inventory + CFG path rule (must-pass-through / must-not-pass-twice) over MIR"},
 }
 
 _PENDING = "check under construction in this round (static rule designed in DESIGN §5, not yet registered)"
 NOT_APPLICABLE = {p: _PENDING for p in
-                  ["C01", "C02", "C03", "C04", "C07", "C08", "C09", "C10", "C11", "C12", "C13", "C14", "C15", "C16",
-                   "C17", "C18", "C19"]}
+                  ["C01", "C02", "C03", "C07", "C08", "C09", "C10", "C11", "C14", "C15", "C16", "C17"]}
 
 NOTES = ("All checks are static: they read /repo's current sources through a rustc_private driver (facts cached by "
          "content hash of src/**, Cargo.toml, Cargo.lock) and never run a chumsky parser. Exit 2 + CHECKER-ERROR = the "
